@@ -103,7 +103,8 @@ Eigen::Matrix<DerivedScalar, 3, Eigen::Dynamic> quaternion_to_rotation_vector(co
     for (std::size_t i = 0; i < quaternion.cols(); ++i)
     {
         const DerivedScalar norm_n = quaternion.col(i).tail(3).norm();
-        if (norm_n > 1e-4)
+        /* norm_n is the sine of half the rotation angle: 5e-5 corresponds to the 1e-4 [rad] cut-off used by rotation_vector_to_quaternion. */
+        if (norm_n > 5e-5)
         {
             const DerivedScalar w = quaternion.col(i)(0);
             if (w < 0)
